@@ -283,6 +283,46 @@ theorem owner_all_zero_is_empty (empty a b : α) : owner empty (fun _ => 0) [a, 
 /-- Go's string order satisfies the order laws assumed above. -/
 theorem bytesLe_totalOrder : TotalOrder Real.bytesLe := Real.bytesLe_total
 
+/-! ### a forwarded request reaches the node it is meant for (getPeerAddr) -/
+
+/-- getPeerAddr answers with the node id it was asked about, or with that id followed by the port — whatever the configured
+    peer list holds, in whatever order (in particular never with the address of a node whose id merely STARTS with the id
+    asked about: bng-10 for bng-1). -/
+theorem peer_addr_is_owner_or_owner_port (withPort : α → α) (cfgPeers : List α) (x : α) :
+    peerAddr withPort cfgPeers x = x ∨ peerAddr withPort cfgPeers x = withPort x := by
+  unfold peerAddr
+  split
+  · rename_i p hp
+    have := List.find?_some hp
+    simp only [Bool.or_eq_true, beq_iff_eq] at this
+    exact this
+  · exact Or.inl rfl
+
+/-- "A request entering at any node is served from exactly one node's pool": when every node is reached under its id and
+    under its id with the port (`resolve`), Allocate entering at ANY pool — any configured peer list, any order, any
+    AddPeer / RemovePeer / health history — is served by the healthy owner that pool computes, and by no other node. -/
+theorem forward_reaches_healthy_owner (withPort : α → α) (resolve : α → Option α)
+    (hres : ∀ x, resolve x = some x ∧ resolve (withPort x) = some x)
+    (cfgPeers : List α) (score : κ → α → Nat) (p : Pool α) (k : κ) :
+    servedVia withPort resolve cfgPeers score p k = some (getHealthyOwner score p k) := by
+  unfold servedVia
+  simp only
+  split
+  · rfl
+  · rcases peer_addr_is_owner_or_owner_port withPort cfgPeers (getHealthyOwner score p k) with h | h
+    · rw [h]; exact (hres _).1
+    · rw [h]; exact (hres _).2
+
+/-- non-vacuity: ids 0..99, "with the port" = +100, an address leads to the node it names -/
+example : ∀ x : Nat, x < 100 → ((fun a => some (a % 100)) x = some x ∧ (fun a => some (a % 100)) (x + 100) = some x) := by
+  intro x hx; constructor <;> simp <;> omega
+/-- bng-1 (1) is configured after bng-10 (10): the address of 1 is still 1 -/
+example : peerAddr (fun x : Nat => x + 100) [10, 1, 2] 1 = 1 := by decide
+example : peerAddr (fun x : Nat => x + 100) [10, 101, 2] 1 = 101 := by decide
+/-- PeerPool.peers after NewPeerPool: sorted in place with the repetitions squeezed out when the node lists itself -/
+example : cfgPeersAfterNew (fun a b : Nat => decide (a ≤ b)) 0 3 [5, 3, 5, 1] = [1, 3, 5, 0] := by decide
+example : cfgPeersAfterNew (fun a b : Nat => decide (a ≤ b)) 0 3 [5, 1] = [5, 1] := by decide
+
 example : TotalOrder (fun a b : Nat => decide (a ≤ b)) where
   total a b := by simp only [decide_eq_true_eq]; omega
   trans a b c h1 h2 := by simp only [decide_eq_true_eq] at *; omega
